@@ -133,8 +133,8 @@ CHECKS = {
         "assumptions": ["PARTIAL: the lock-order theorem is proved for arbitrary lock programs; that the library's composed lock programs respect one order (outside G10) is decided by the explored schedules, not proved"],
     },
     "C03": {
-        "modules": ["p_c03"],
-        "rule": "seeded scenarios on real stacks (depth 1-4, sync / real thread pool) with a virtual clock: callables that succeed, fail "
+        "modules": ["p_c03", "p_c03t", "p_c03h", "p_c03p", "p_c03r"],
+        "rule": "p_c03t / p_c03h / p_c03p / p_c03r: the lockstep scenario families of C09 / C07 / C08 / C05 (mixed timeouts on one executor, delegate completions against the hand-over thread's check/wait/clear, registrations and notify() against the poll thread's, attempts finishing against the submit thread's) replayed on the component machines, with the lost-future / late verdicts of their monitors; p_c03: seeded scenarios on real stacks (depth 1-4, sync / real thread pool) with a virtual clock: callables that succeed, fail "
                 "(retries with back-off), block until t=2, futures cancelled through the returned future at t=0/1/2, small (3) or "
                 "effectively infinite timeouts; x {random, sticky, PCT} schedules; monitor: every returned future is terminal when nothing "
                 "can happen any more, and finished no later than the virtual time implied by the configured delays (so a lost wake-up that "
